@@ -243,7 +243,8 @@ def _objective_entries():
     obj_case('bi-affine array', lambda d: d['x'][:2] * d['z'])
     obj_case('abs array', lambda d: abs(d['x']) if d['how'] == 'min' else -abs(d['x']))
     for f in FRONTS:
-        for state in ('unsolved', 'infeasible', 'unbounded'):
+        for state in ('unsolved', 'infeasible', 'unbounded', 'solved_then_infeasible',
+                      'solved_then_infeasible_bound', 'solved_then_infeasible_other_solver'):
             for probe in ('model.get', 'x.get', 'x()', 'expr()', 'slice.get', 'dual', 'ldr.get',
                           'convex()'):
                 if probe in ('dual', 'ldr.get') and f == 'dro':
@@ -441,11 +442,29 @@ def run_case(spec, ctx):
         m.st(x >= 0, x <= 1)
     elif e['state'] == 'unbounded':
         c = m.st(x[0] + x[1] <= 5)
+    elif e['state'].startswith('solved_then'):
+        # a first, successful solve; then the model is changed so that the second solve fails:
+        # nothing of the first solution may be served afterwards
+        c = m.st(x[0] + x[1] >= 0.5)
+        lb = m.st(x >= 0)
+        ub = m.st(x <= 1)
+        C.solve(m, 'def')
+        if not C.optimal(m):
+            return {'status': 'skip', 'reason': 'first solve failed'}
+        first = m.get()
+        ctx.count('first_solves')
+        if e['state'] == 'solved_then_infeasible_bound':
+            m.st(x[2] >= 2)           # a bound object that crosses x <= 1
+        else:
+            m.st(x[0] + x[1] <= -1)
     else:
         c = m.st(x[0] + x[1] >= 0.5)
         m.st(x >= 0, x <= 1)
     if e['state'] != 'unsolved':
-        C.solve(m, 'def')
+        second = 'def'
+        if e['state'] == 'solved_then_infeasible_other_solver':
+            second = 'ort'
+        C.solve(m, second)
         if C.optimal(m):
             return {'status': 'skip', 'reason': 'model unexpectedly solved'}
     probes = {'model.get': lambda: m.get(), 'x.get': lambda: x.get(), 'x()': lambda: x(),
